@@ -7,7 +7,7 @@ from pkgspec import mk
 RULE = ("boundary scripts L-1 / L / L+1 for every capacity limit: columns per table (31/32/33); rows per table (65,535 / 65,536 / "
         "65,537, in one batch and incrementally, across reopen and after deletions); distinct strings under two-byte references "
         "(pool filled through two tables to 65,535 entries, then one more); table names of 30/31/32 encoded units and 60/61/64/65 "
-        "characters; column names of 64/65 characters; each followed by a row count, a reopen and a second count: an over-limit "
+        "characters; column names of 64/65 characters; strings of 65,534 / 65,535 / 65,536 / 65,537 encoded bytes (the 16-bit length field of a pool entry); each followed by a row count, a reopen and a second count: an over-limit "
         "call must return an error, leave the count unchanged and never panic; an at-limit call must succeed and survive "
         "reopen.  Small cases run on the model as well; bulk cases (>= 30,000 rows) are judged on the implementation by the "
         "oracle.  non-trivial = reaches a limit; distinct = distinct command lists")
@@ -66,7 +66,22 @@ def gen_cases(rng, tier, info):
               "(update %s ((%s %s)) ((bin eq (col %s) (lit (i %d)))))" % (U, X.enc_str("V"), X.enc_value("fresh-%d" % i), X.enc_str("K"), 40000 + i),
               "(x_count %s)" % U] for i in range(120)], [])
       + ["(reopen flush)", "(x_count %s)" % U, "(x_count %s)" % T], ("strings",)))
-    info.update({"limits": {"columns": 32, "rows": 65536, "short_string_refs": 65535, "name_units": 31}})
+    # the 16-bit length field of a pool entry: a string of exactly 65,535 encoded bytes is the longest short-form entry,
+    # one byte more takes the two-entry long form; both sides of that limit are accepted and round-trip, alone, next to
+    # each other, followed by other strings (whose references must not shift), in UTF-8 with multi-byte characters
+    for j, lens in enumerate([(65534, 65535), (65535, 65536), (65535, 65535), (65536, 65537), (65535,)]):
+        h = G.History(rng, j % 3)
+        h.add_table("Long", [mk("K", "i16", pk=True), mk("V", ("str", 0), null=True), mk("W", ("str", 0), null=True)])
+        rows = []
+        for k, n in enumerate(lens):
+            text = "PQRS"[k] * n if j != 3 else "\u00e9" * (n // 2) + "z" * (n % 2)
+            rows.append([k + 1, text, "after-%d" % k])
+        h.insert("Long", rows=rows + [[9, "tail", "tail2"]])
+        h.obs(); h.reopen(["flush", "into_inner", "drop"][j % 3]); h.obs()
+        h.insert("Long", rows=[[10, "later", None]])
+        h.obs(); h.reopen(); h.obs()
+        cases.append(Case("strlen-%d" % j, h.cmds, ("strlen",)))
+    info.update({"limits": {"columns": 32, "rows": 65536, "short_string_refs": 65535, "name_units": 31, "short_pool_entry_bytes": 65535}})
     return cases
 
 
@@ -84,6 +99,9 @@ def oracle(ctx):
         def report(kind, what, i):
             bad.append({"kind": kind, "what": what, "cmds": c.cmds[:i + 1], "impl": outs[i][:200]})
         kind = c.tags[0]
+        if kind == "strlen":
+            bad.extend(G.walk(c.cmds, outs)[:1])
+            continue
         if any(o in ("abort", "timeout") for o in outs):
             report("panic", "the driver aborted or timed out", outs.index([o for o in outs if o in ("abort", "timeout")][0]))
             continue
